@@ -15,6 +15,7 @@
 package msg
 
 import (
+	"errors"
 	"io"
 	"sync"
 
@@ -54,7 +55,12 @@ func EnsureUDPPacketSize(udpPacketSize int64) {
 }
 
 func ReadMsg(c io.Reader) (msg Message, err error) {
-	return msgCtl.ReadMsg(c)
+	msg, err = msgCtl.ReadMsg(c)
+	if err == nil && msg == nil {
+		// a body that is the JSON literal null decodes to no message at all
+		err = errors.New("message body is null")
+	}
+	return msg, err
 }
 
 func ReadMsgInto(c io.Reader, msg Message) (err error) {
